@@ -47,7 +47,9 @@ Inductive kind :=
 | KIncomplete    (* returns a response with IsComplete = false *)
 | KError         (* returns its own error *)
 | KEmpty         (* returns (nil, nil) *)
-| KSilent.       (* returns nothing until its context is done, then (nil, ctx.Err()) *)
+| KSilent        (* returns nothing until its context is done, then (nil, ctx.Err()) *)
+| KIncompleteErr (* returns an incomplete response TOGETHER with an error *)
+| KCompleteErr.  (* returns a complete response TOGETHER with an error *)
 
 Definition slot_resp (i : nat) (c : bool) : response := {| r_id := N.of_nat i; r_complete := c |}.
 
@@ -58,6 +60,10 @@ Definition slot_events (kinds : list kind) (i : nat) : list ev :=
   | Some KIncomplete => [Res (slot_resp i false)]
   | Some KError => [Fail (EAttempt (N.of_nat i))]
   | Some KEmpty => [Fail ENull]
+  (* processConcurrentCall tests err != nil first: the error is the attempt's one message,
+     the response that came with it is dropped *)
+  | Some KIncompleteErr => [Fail (EAttempt (N.of_nat i))]
+  | Some KCompleteErr => [Fail (EAttempt (N.of_nat i))]
   | _ => []
   end.
 
